@@ -115,9 +115,51 @@ def limit_over_outer_join(q):
     return bool(hit)
 
 
+def cte_joined_with_itself(q):
+    """Some FROM clause (through joins and derived tables, not expression subqueries) scans one CTE twice."""
+    hit = []
+
+    def from_tables(f, names):
+        if f is None:
+            return
+        if f.k == "join":
+            from_tables(f.left, names)
+            from_tables(f.right, names)
+        elif f.k == "table":
+            names.append(f.name)
+        elif f.k in ("sub", "lateral"):
+            q_tables(f.q, names)
+
+    def q_tables(qq, names):
+        b = qq.body
+        for _, cq, _m in qq.ctes:
+            vq(cq)
+        if isinstance(b, Sel):
+            from_tables(b.frm, names)
+        else:
+            q_tables(b[2], names)
+            q_tables(b[3], names)
+
+    def vq(qq):
+        names = []
+        q_tables(qq, names)
+        ctes = [n for n in names if n.startswith("cte")]
+        if len(ctes) != len(set(ctes)):
+            hit.append(1)
+    vq(q)
+
+    def es(x):
+        if x.k == "subq":
+            vq(x.a[1])
+    _walk_query(q, es)
+    return bool(hit)
+
+
 def query_avoid_reasons(q, partitions=2):
     """-> set of finding ids this query would run into."""
     reasons = set()
+    if cte_joined_with_itself(q):
+        reasons.add("optimizer-cte-self-join")
     if partitions > 1 and limit_over_outer_join(q):
         reasons.add("left-join-limit-hang")
 
